@@ -17,6 +17,7 @@ BASE = frozenset(
     "setext reflink fnref tagline hardbreak link table refdef".split()
 )
 
+
 ENABLED: dict[str, frozenset] = {
     "C01": BASE,
     "C02": BASE,
